@@ -105,6 +105,12 @@ theorem faultEvidence_total (fp : Option Int) (r : Int) : ∃ x, faultEvidence f
 theorem faultEvidence_unguarded_counterexample :
     faultEvidenceUnguarded none 0 = .error (.panic "consensus.(*ConsensusState).checkFaultValEvidence") := by decide
 
+theorem stragglerPrecommit_total (b : Bool) : ∃ x, stragglerPrecommit b = .ok x := by
+  cases b <;> exact ⟨_, rfl⟩
+
+theorem stragglerPrecommit_unguarded_counterexample :
+    stragglerPrecommitUnguarded false = .error (.panic "types.(*VoteSet).AddVote") := by decide
+
 /-- C16 for the modelled partial operations, all at once -/
 theorem C16_modelled_handlers_total :
     (∀ ps idx ok, PartSet.WF ps → ∃ r, addPart ps idx ok = .ok r) ∧
@@ -121,7 +127,7 @@ theorem guards_in_place : ∀ g ∈ guards, g.opFound = true ∧ g.have_ = g.wan
 open Gen.C16Facts in
 theorem guards_vetted :
     guards.map (·.name) = ["addPartIndexLower", "addPartIndexUpper", "proposalTotalStateMachine", "proposalTotalReactor",
-      "blockComponentsNil", "faultEvidenceEmptyCommitState", "faultEvidenceEmptyCommitValidation"] := by decide
+      "blockComponentsNil", "faultEvidenceEmptyCommitState", "lastCommitNilFirstHeight", "faultEvidenceEmptyCommitValidation"] := by decide
 
 /-! ## Non-vacuity -/
 example : ({ total := 2, parts := [none, some 7] } : PartSet).WF := by unfold PartSet.WF; decide
